@@ -358,7 +358,7 @@ check("C22", "internal/accumulation",
       level_text="Each generated round is executed 12..24 times under different scheduling parameters and the complete posterior projections are compared; the race detector watches the fan-out. Held = all executions of every round identical and no race report.",
       note="In-package harness (drives the blockchain singleton like jamtests/accumulate; W* is set directly, the queue equations are C21's subject). Only determinism is judged, not whether the delivery order is the Gray Paper's.",
       shards=(8, 16), race=True, env={"JAM_FUZZ": "1"}, timeout=(1200, 7200),
-      floors={"any": {"rounds": 100, "repeated_runs_compared": 1200, "rounds_with_more_than_a_dozen_transfers_to_one_receiver": 60, "transfers_recorded_by_receivers": 2000, "rounds_with_boundary_service_ids": 20, "rounds_with_random_32_bit_service_ids": 20, "rounds_with_long_running_senders": 30, "rounds_whose_output_log_has_two_entries_of_one_service": 15}},
+      floors={"any": {"rounds": 100, "repeated_runs_compared": 1200, "rounds_with_more_than_a_dozen_transfers_to_one_receiver": 60, "transfers_recorded_by_receivers": 2000, "rounds_with_boundary_service_ids": 20, "rounds_with_random_32_bit_service_ids": 20, "rounds_with_long_running_senders": 30, "rounds_whose_output_log_has_two_entries_of_one_service": 15, "rounds_with_two_creators_deriving_the_same_new_service_id": 8}},
       assumptions=[STANDIN_VRF])
 
 check("C23", "internal/zzverif/c23",
